@@ -42,6 +42,31 @@ theorem no_calls_no_dependency (c : ParsedCmd) (r r' : Runner) (now : Int) (db :
     run c r now db o = run c r' now db o :=
   run_calls_only_source_api c r r' now db o (fun op hm => by rw [h] at hm; cases hm)
 
+/-- **Each wire command is exactly its documented API call**: `apiCallOf` is the table "parsed command ↦
+the ONE repository call it makes, with its arguments" (`LREM k -2 e ↦ List.DeleteBack(k, e, 2)`,
+`SET k v NX PX 5 ↦ Str.SetWith(k, v).IfNotExists().TTL(5ms)`, `TTL k ↦ Key.Get(k)`, …); the reply and
+the resulting tables of the wire model are a function of what that call returns on the same data at the
+same instant — for every command, argument vector, repository, clock value and table state. -/
+theorem wire_command_is_its_api_call (c : ParsedCmd) (r r' : Runner) (now : Int) (db : DB)
+    (o : Option Bytes) (h : ∀ op, apiCallOf c.cmd o = some op → r op now db = r' op now db) :
+    run c r now db o = run c r' now db o :=
+  run_is_the_api_call c r r' now db o h
+
+/-- the call named by `apiCallOf` is one of the methods the SOURCE of the command's `Run` calls -/
+theorem api_call_is_a_source_call : ∀ (cmd : Cmd) (o : Option Bytes) (op : Op),
+    apiCallOf cmd o = some op → opApi op ∈ callsOfTy cmd.goType := by
+  intro cmd o op h
+  cases cmd <;> simp only [apiCallOf] at h <;>
+    first
+    | (cases h; done)
+    | (injection h with h; subst h; dsimp only [Cmd.goType, opApi]; decide)
+    | (split at h <;> first
+        | (cases h; done)
+        | (injection h with h; subst h; dsimp only [Cmd.goType, opApi]; decide)
+        | (split at h <;> first
+            | (cases h; done)
+            | (injection h with h; subst h; dsimp only [Cmd.goType, opApi]; decide)))
+
 /-- documentation rows that name another method than the one called -/
 def docErrata : List String := ["HKEYS", "HSCAN", "HVALS", "SCAN", "SSCAN", "SET"]
 
@@ -81,6 +106,12 @@ theorem every_command_type_has_a_run :
   decide +kernel
 
 /-! ### non-vacuity -/
+
+example : apiCallOf (.lrem [107] (-2) [101]) none = some (.listDeleteBack [107] [101] 2) := by
+  simp [apiCallOf, wrap64, minInt64]
+example : apiCallOf (.set [107] [118] true false false 5 none false) none
+    = some (.strSetWith [107] [118] { ifNotExists := true, ttl := 5 }) := by simp [apiCallOf]
+example : apiCallOf (.ttl [107]) none = some (.keyGet [107]) ∧ apiCallOf (.ping []) none = none := ⟨rfl, rfl⟩
 
 example : callsOfTy (Cmd.goType (.getSet [1] [2])) = ["Str.SetWith"] := by decide +kernel
 example : callsOfTy (Cmd.goType (.set [1] [2] false false false 0 none false)) = ["Str.SetExpires", "Str.SetWith"] := by
